@@ -111,6 +111,20 @@ fn records_match(obs: &[J], exp: &[J]) -> bool {
     })
 }
 
+/// the projection of observed values knows one NaN; the model's second NaN (sign bit set) is the same value with other bits
+pub fn norm_nan(v: &J) -> J {
+    match v {
+        J::Array(a) => J::Array(a.iter().map(norm_nan).collect()),
+        J::Object(m) => {
+            if m.get("t").and_then(|t| t.as_str()) == Some("real") && m.get("c").and_then(|c| c.as_str()) == Some("nnan") {
+                let mut m2 = m.clone(); m2.insert("c".into(), json!("nan")); return J::Object(m2);
+            }
+            J::Object(m.iter().map(|(k, x)| (k.clone(), norm_nan(x))).collect())
+        }
+        _ => v.clone()
+    }
+}
+
 pub fn replay(cases: &[J]) -> J {
     let dir = scratch();
     let mut rep = Report::new("engine");
@@ -196,7 +210,7 @@ pub fn replay(cases: &[J]) -> J {
                               else { ost == est };
                 if !same_st { ok = false; why = format!("step {}: status {} vs model {}", i, ost, est); break; }
                 if est == "ok" && !e_empty {
-                    if o["recs"] != st["recs"] { ok = false; why = format!("step {}: rows differ", i); break; }
+                    if o["recs"] != norm_nan(&st["recs"]) { ok = false; why = format!("step {}: rows differ", i); break; }
                     if o["cols"] != case["cols"] { ok = false; why = format!("step {}: column names differ", i); break; }
                     nontrivial = true;
                 }
